@@ -43,10 +43,13 @@ import (
 // the identifiers of the given objects replaced.
 func (n *normalizer) flatText(from, to token.Pos, nodes []ast.Node, subst map[types.Object]string) (string, error) {
 	fn, o1 := n.file(from)
-	_, o2 := n.file(to)
+	fn2, o2 := n.file(to)
 	src, err := n.source(fn)
 	if err != nil {
 		return "", err
+	}
+	if fn != fn2 || o1 > o2 || o2 > len(src) {
+		return "", fmt.Errorf("text range spans files")
 	}
 	type rep struct {
 		a, b int
@@ -163,6 +166,288 @@ func (n *normalizer) inlinable(h *ast.FuncDecl) bool {
 	return true
 }
 
+// ensureImports: the packages the body of h refers to by name are imported in the
+// file of fd as well (a helper spliced into a function of another file).
+func (n *normalizer) ensureImports(fd, h *ast.FuncDecl) error {
+	info := n.p.Info
+	var target, source *ast.File
+	for _, f := range n.p.P.Syntax {
+		if f.Pos() <= fd.Pos() && fd.End() <= f.End() {
+			target = f
+		}
+		if f.Pos() <= h.Pos() && h.End() <= f.End() {
+			source = f
+		}
+	}
+	if target == nil || source == nil || target == source {
+		return nil
+	}
+	have := map[string]bool{}
+	for _, im := range target.Imports {
+		if im.Name == nil || (im.Name.Name != "_" && im.Name.Name != ".") {
+			have[strings.Trim(im.Path.Value, "\"`")] = true
+		}
+	}
+	if n.addedImports == nil {
+		n.addedImports = map[string]bool{}
+	}
+	var bad error
+	ast.Inspect(h.Body, func(x ast.Node) bool {
+		id, ok := x.(*ast.Ident)
+		if !ok {
+			return true
+		}
+		pn, ok := info.Uses[id].(*types.PkgName)
+		if !ok {
+			return true
+		}
+		path := pn.Imported().Path()
+		key := n.p.Fset.Position(target.Pos()).Filename + "\x00" + path
+		if have[path] || n.addedImports[key] {
+			return true
+		}
+		if id.Name != pn.Imported().Name() {
+			bad = fmt.Errorf("the helper uses a renamed import")
+			return false
+		}
+		n.addedImports[key] = true
+		if err := n.edit(target.Name.End(), target.Name.End(), "; import "+fmt.Sprintf("%q", path)); err != nil {
+			bad = err
+			return false
+		}
+		return true
+	})
+	return bad
+}
+
+// onParsePath: ParseVector, or a package function reachable from it that takes a string.
+func (n *normalizer) onParsePath(fd *ast.FuncDecl) bool {
+	if fd.Name.Name == "ParseVector" && fd.Recv == nil {
+		return true
+	}
+	root := n.p.Funcs["ParseVector"]
+	if root == nil {
+		return false
+	}
+	seen := map[*ast.FuncDecl]bool{}
+	work := []*ast.FuncDecl{root}
+	for len(work) > 0 {
+		f := work[len(work)-1]
+		work = work[:len(work)-1]
+		if seen[f] {
+			continue
+		}
+		seen[f] = true
+		work = append(work, n.p.calleesOf(f)...)
+	}
+	if !seen[fd] {
+		return false
+	}
+	for _, po := range paramObjs(n.p.Info, fd) {
+		if po != nil && isStringT(po.Type()) {
+			return true
+		}
+	}
+	return false
+}
+
+// scannerHelper: an unexported function without receiver that takes a string (the
+// input text or a part of it) and returns strings and/or integers, without loops
+// of its own that the shape rules know (split, splitCouple keep their own rules:
+// the caller only tries this when the direct verdict has failures).
+func (n *normalizer) scannerHelper(fn *types.Func, h *ast.FuncDecl) bool {
+	if fn == nil || fn.Pkg() != n.p.P.Types || h.Recv != nil || ast.IsExported(h.Name.Name) {
+		return false
+	}
+	sig := fn.Type().(*types.Signature)
+	hasStr := false
+	for i := 0; i < sig.Params().Len(); i++ {
+		t := sig.Params().At(i).Type()
+		if isStringT(t) {
+			hasStr = true
+		} else if !isIntT(t) {
+			return false
+		}
+	}
+	if !hasStr || sig.Results().Len() == 0 {
+		return false
+	}
+	for i := 0; i < sig.Results().Len(); i++ {
+		t := sig.Results().At(i).Type()
+		if bt, ok := t.Underlying().(*types.Basic); !ok || bt.Info()&(types.IsString|types.IsInteger|types.IsBoolean) == 0 {
+			return false
+		}
+	}
+	return true
+}
+
+// inlineTailReturns renders the body of h at a call `lhs tok h(args)` when the body is
+//
+//	prefix…; if [init;] cond { …; return A… }; …; return B…
+//
+// (recursively in the part after the if), without other returns, loops that
+// return, defer, go, closures or labels: each return becomes `lhs = results`.
+func (n *normalizer) inlineTailReturns(h *ast.FuncDecl, call *ast.CallExpr, lhs []ast.Expr, tok token.Token) (string, bool) {
+	if h.Body == nil || len(lhs) == 0 {
+		return "", false
+	}
+	info := n.p.Info
+	// shape check
+	var okList func(list []ast.Stmt) bool
+	noReturnIn := func(s ast.Stmt) bool {
+		ok := true
+		ast.Inspect(s, func(x ast.Node) bool {
+			switch x.(type) {
+			case *ast.ReturnStmt, *ast.DeferStmt, *ast.GoStmt, *ast.FuncLit, *ast.LabeledStmt, *ast.SelectStmt:
+				ok = false
+			}
+			return ok
+		})
+		return ok
+	}
+	okList = func(list []ast.Stmt) bool {
+		if len(list) == 0 {
+			return false
+		}
+		for i, s := range list {
+			if i == len(list)-1 {
+				_, isRet := s.(*ast.ReturnStmt)
+				return isRet
+			}
+			if ifs, ok := s.(*ast.IfStmt); ok && ifs.Else == nil && len(ifs.Body.List) > 0 {
+				if _, endsRet := ifs.Body.List[len(ifs.Body.List)-1].(*ast.ReturnStmt); endsRet {
+					if ifs.Init != nil && !noReturnIn(ifs.Init) {
+						return false
+					}
+					return okList(ifs.Body.List) && okList(list[i+1:])
+				}
+			}
+			if !noReturnIn(s) {
+				return false
+			}
+		}
+		return false
+	}
+	if !okList(h.Body.List) {
+		return "", false
+	}
+	for _, ro := range resultObjs(info, h) {
+		// named results are fine as documentation: never assigned or read, every return explicit
+		if ro != nil && (assignedIn(info, h.Body, ro) || nodeMentions(info, h.Body, ro)) {
+			return "", false
+		}
+	}
+	subst, pre, okBind := n.bindCall(h, call)
+	if !okBind {
+		return "", false
+	}
+	var ls []string
+	for _, l := range lhs {
+		t, err := n.flatText(l.Pos(), l.End(), []ast.Node{l}, nil)
+		if err != nil {
+			return "", false
+		}
+		ls = append(ls, t)
+	}
+	var decl []string
+	if tok == token.DEFINE {
+		sig := info.Defs[h.Name].Type().(*types.Signature)
+		if sig.Results().Len() != len(lhs) {
+			return "", false
+		}
+		for i, l := range ls {
+			if l == "_" {
+				continue
+			}
+			ts := types.TypeString(sig.Results().At(i).Type(), func(pk *types.Package) string {
+				if pk == n.p.P.Types {
+					return ""
+				}
+				return pk.Name()
+			})
+			decl = append(decl, fmt.Sprintf("var %s %s", l, ts))
+		}
+		// all results of predeclared basic types: `a, b := "", 0` keeps the definition an
+		// assignment statement (the shape the split rules read)
+		allBasic := len(decl) == len(ls)
+		var zeros []string
+		for i := range ls {
+			bt, ok := sig.Results().At(i).Type().(*types.Basic)
+			switch {
+			case !ok:
+				allBasic = false
+			case bt.Info()&types.IsString != 0:
+				zeros = append(zeros, `""`)
+			case bt.Info()&types.IsInteger != 0:
+				zeros = append(zeros, "0")
+			case bt.Info()&types.IsBoolean != 0:
+				zeros = append(zeros, "false")
+			default:
+				allBasic = false
+			}
+		}
+		if allBasic {
+			decl = []string{strings.Join(ls, ", ") + " := " + strings.Join(zeros, ", ")}
+		}
+	}
+	var render func(list []ast.Stmt) (string, bool)
+	render = func(list []ast.Stmt) (string, bool) {
+		var parts []string
+		for i, s := range list {
+			if rs, ok := s.(*ast.ReturnStmt); ok {
+				if len(rs.Results) != len(ls) {
+					return "", false
+				}
+				var rt []string
+				for _, r := range rs.Results {
+					t, err := n.flatText(r.Pos(), r.End(), []ast.Node{r}, subst)
+					if err != nil {
+						return "", false
+					}
+					rt = append(rt, t)
+				}
+				parts = append(parts, strings.Join(ls, ", ")+" = "+strings.Join(rt, ", "))
+				return strings.Join(parts, "; "), true
+			}
+			if ifs, ok := s.(*ast.IfStmt); ok && ifs.Else == nil && len(ifs.Body.List) > 0 {
+				if _, endsRet := ifs.Body.List[len(ifs.Body.List)-1].(*ast.ReturnStmt); endsRet {
+					head := "if "
+					if ifs.Init != nil {
+						t, err := n.flatText(ifs.Init.Pos(), ifs.Init.End(), []ast.Node{ifs.Init}, subst)
+						if err != nil {
+							return "", false
+						}
+						head += t + "; "
+					}
+					ct, err := n.flatText(ifs.Cond.Pos(), ifs.Cond.End(), []ast.Node{ifs.Cond}, subst)
+					if err != nil {
+						return "", false
+					}
+					thenT, ok1 := render(ifs.Body.List)
+					elseT, ok2 := render(list[i+1:])
+					if !ok1 || !ok2 {
+						return "", false
+					}
+					parts = append(parts, head+ct+" { "+thenT+" } else { "+elseT+" }")
+					return strings.Join(parts, "; "), true
+				}
+			}
+			t, err := n.flatText(s.Pos(), s.End(), []ast.Node{s}, subst)
+			if err != nil {
+				return "", false
+			}
+			parts = append(parts, t)
+		}
+		return "", false
+	}
+	body, ok := render(h.Body.List)
+	if !ok {
+		return "", false
+	}
+	all := append(append(append([]string(nil), decl...), pre...), body)
+	return strings.Join(all, "; "), true
+}
+
 // wantsInlining: the policy — phase helpers, not the leaf helpers the rules know.
 func (n *normalizer) wantsInlining(fn *types.Func, h *ast.FuncDecl) bool {
 	p := n.p
@@ -202,7 +487,11 @@ func (n *normalizer) wantsInlining(fn *types.Func, h *ast.FuncDecl) bool {
 	ast.Inspect(h.Body, func(x ast.Node) bool {
 		switch y := x.(type) {
 		case *ast.ForStmt, *ast.RangeStmt:
-			hasLoop = true
+			// (in the parser a helper with a loop of its own — the part splitter — keeps
+			// its own rules and stays a call)
+			if !n.parserMode {
+				hasLoop = true
+			}
 		case *ast.CallExpr:
 			// a wrapper around the pool (getParts / putParts): the typestate of the
 			// pooled value is followed within one function
@@ -421,6 +710,23 @@ func (n *normalizer) inlinePass(fd *ast.FuncDecl) (bool, error) {
 				continue
 			}
 			h := p.FuncObj[fn]
+			if h != nil && h != fd && !n.inlinable(h) && n.onParsePath(fd) && n.scannerHelper(fn, h) {
+				// a scanner helper ending in `if c { return A }; return B`: spliced with the
+				// results assigned on each path
+				text, ok := n.inlineTailReturns(h, call, lhs, tok)
+				if ok && n.ensureImports(fd, h) != nil {
+					ok = false
+				}
+				if ok {
+					if err := n.edit(st.Pos(), st.End(), text); err != nil {
+						return false, err
+					}
+					done[st] = true
+					changed = true
+					n.notes = append(n.notes, fmt.Sprintf("%s: the call of %s is replaced by its body (results assigned on each return path)", fd.Name.Name, h.Name.Name))
+				}
+				continue
+			}
 			if h == nil || h == fd || !n.inlinable(h) || !n.wantsInlining(fn, h) {
 				continue
 			}
@@ -540,6 +846,9 @@ func (n *normalizer) inlinePass(fd *ast.FuncDecl) (bool, error) {
 				parts = append(parts, "_ = "+d)
 			}
 			text := strings.Join(parts, "; ")
+			if err := n.ensureImports(fd, h); err != nil {
+				continue
+			}
 			if err := n.edit(st.Pos(), st.End(), text); err != nil {
 				return false, err
 			}
@@ -1044,6 +1353,12 @@ func (w *World) applyEdits(n *normalizer) (*World, error) {
 	}
 	w2, err := loadOverlay(w.Repo, "", overlay)
 	if err != nil {
+		if dir := os.Getenv("CVSSCHECK_DUMPFAIL"); dir != "" {
+			for name, src := range overlay {
+				_ = os.MkdirAll(dir, 0o755)
+				_ = os.WriteFile(dir+"/"+strings.ReplaceAll(strings.TrimPrefix(name, "/"), "/", "__"), src, 0o644)
+			}
+		}
 		if os.Getenv("CVSSCHECK_DEBUG") != "" {
 			for name, src := range overlay {
 				for i, l := range strings.Split(string(src), "\n") {
@@ -1694,6 +2009,7 @@ func (w *World) inlinedParserWorld(key string) (*World, []string, error) {
 	any := false
 	for iter := 0; iter < 6; iter++ {
 		n := cur.newNormalizer(key)
+		n.parserMode = true
 		fd := cur.Pkgs[key].Funcs["ParseVector"]
 		if fd == nil || fd.Body == nil {
 			break
@@ -1722,11 +2038,32 @@ func (w *World) inlinedParserWorld(key string) (*World, []string, error) {
 	} {
 		for iter := 0; iter < 6; iter++ {
 			n := cur.newNormalizer(key)
+			n.parserMode = true
 			fd := cur.Pkgs[key].Funcs["ParseVector"]
 			if fd == nil || fd.Body == nil {
 				break
 			}
 			ch, err := f(n, fd)
+			if err == nil {
+				// the functions ParseVector hands the input text to (split …) as well
+				var names []string
+				for name := range cur.Pkgs[key].Funcs {
+					names = append(names, name)
+				}
+				sort.Strings(names)
+				for _, name := range names {
+					g := cur.Pkgs[key].Funcs[name]
+					if g == fd || g.Body == nil || g.Recv != nil || !n.onParsePath(g) {
+						continue
+					}
+					c2, err2 := f(n, g)
+					if err2 != nil {
+						err = err2
+						break
+					}
+					ch = ch || c2
+				}
+			}
 			if err != nil {
 				// a pass that cannot be applied leaves the program as it is
 				notes = append(notes, "pass not applied: "+err.Error())
@@ -1737,6 +2074,9 @@ func (w *World) inlinedParserWorld(key string) (*World, []string, error) {
 			}
 			w2, err := cur.applyEdits(n)
 			if err != nil {
+				if os.Getenv("CVSSCHECK_DEBUG") != "" {
+					println("DBG pass not applied:", err.Error())
+				}
 				notes = append(notes, "pass not applied: "+err.Error())
 				break
 			}
